@@ -86,8 +86,29 @@ def cases():
     return out
 
 
-def make_reaction(fmt, code, first):
-    """a real reaction object of the format's class, read from a line of that format"""
+def make_reaction(fmt, code, first, abc=None):
+    """a real reaction object of the format's class, read from a line of that format.  With `abc` the three coefficients
+    are written into the line in the database's own column layout (KIDA: 3(e10.3,1x), sign in the first column of the field)
+    and the values the text denotes are returned as well."""
+    if abc is not None:
+        from naunet.reactions import KIDAReaction, UMISTReaction, UCLCHEMReaction
+        a, b, c = abc
+        if fmt == "kida":
+            ta, tb, tc = f"{a:10.3e}", f"{b:10.3e}", f"{c:10.3e}"
+            line = (f"{first:<11}{'H':<11}{'':<11} {'C':<11}{'':<44} {ta} {tb} {tc} 2.00e+00 0.00e+00 logn  1    -9999   9999 "
+                    f"{code:>2d}     1 1  1")
+            return KIDAReaction(line), (float(ta), float(tb), float(tc)), line
+        if fmt == "umist":
+            ta, tb, tc = f"{a:.2e}", f"{b:.2f}", f"{c:.1f}"
+            line = f"1:{code}:{first}:H:C::::1:{ta}:{tb}:{tc}:10:41000:L:C:\"x\"::"
+            return UMISTReaction(line), (float(ta), float(tb), float(tc)), line
+        if fmt == "uclchem":
+            marker = {"MA": "H", "CRP": "CRP", "CRPHOT": "CRPHOT", "PHOTON": "PHOTON"}.get(code, "H")
+            prods = {"MA+photon-product": "C,PHOTON,NAN,NAN", "MA+crp-product": "C,H,CRP,NAN"}.get(code, "C,NAN,NAN,NAN")
+            ta, tb, tc = f"{a:.3e}", f"{b!r}", f"{c!r}"
+            line = f"{first},{marker},NAN,{prods},{ta},{tb},{tc},0,0"
+            return UCLCHEMReaction(line), (float(ta), float(tb), float(tc)), line
+        raise KeyError(fmt)
     from naunet.reactions import KIDAReaction, UMISTReaction, LEEDSReaction, UCLCHEMReaction, Reaction
     from naunet.reactiontype import ReactionType as RT
     second = "H"
@@ -204,6 +225,32 @@ def run(argv):
                 reqs.append({"cmd": "gasrate", "fmt": fmt, "code": model_code(fmt, code) if has_law or fmt != "umist" else 0,
                              "a": na, "b": nb, "c": nc, "name": name, "alias": alias})
                 pend.append((case, txt, err, [ma, mb, mc]))
+    # ---- the same laws with the coefficients read from a line of the database's own layout (signed values in every column)
+    FILE_VALUES = [(1e-10, -0.5, -5.0), (-1e-10, 0.5, 100.0), (-2.5e-9, -1.0, -30.5), (2.5e-9, 0.0, 0.0), (-1.0, 0.0, 12.5)]
+    for fmt, code in cases():
+        if fmt not in ("kida", "umist", "uclchem"):
+            continue
+        try:
+            law(fmt, law_code(fmt, code), 1.0, 1.0, 1.0, phys(rng), "H")
+        except KeyError:
+            continue
+        for abc in FILE_VALUES + [(draw(rng), draw(rng), draw(rng)) for _ in range(2 if tier == "quick" else 20)]:
+            if any(abs(x) > 1e90 or (x != 0 and abs(x) < 1e-90) for x in abc):
+                continue     # outside what a two-digit exponent column can carry
+            try:
+                with silenced():
+                    r1, (a, b, c), line = make_reaction(fmt, code, "H", abc)
+                    txt = r1.rateexpr(None)
+            except Exception as e:
+                chk.violation({"kind": "line-route-raised", "fmt": fmt, "code": str(code), "error": type(e).__name__},
+                              f"reading a {fmt} line with signed coefficients and emitting its rate raised {type(e).__name__}: {e}",
+                              input={"fmt": fmt, "code": code, "abc": abc})
+                continue
+            case = {"fmt": fmt, "code": code, "first": "H", "alpha": a, "beta": b, "gamma": c, "line": line, "route": "line"}
+            chk.count((fmt, str(code), "line", a, b, c), nontrivial=any(x < 0 for x in (a, b, c)))
+            chk.hist[f"line-route:{fmt}"] += 1
+            strings.append(txt)
+            oracle_eval(chk, rng, fmt, code, "H", a, b, c, txt, case)
     # ---- all strings must compile as C expressions
     syntax_check(chk, strings)
     # ---- model correspondence
